@@ -551,24 +551,24 @@ Qed.
 (* ---------- a function object registers what it declares (no abort) ---------- *)
 Definition committed (held : list key) (x : frec) : frec := with_tracked true (with_pending false (with_held held x)).
 
-Lemma commit_false_eq s r :
+Lemma commit_false_eq s r : f_own r = f_ctx r ->
   commit false s r =
   set_funcs (fst (fst (reg_loop false (f_ctx r) (f_gen r, f_sr r) (f_decl r) s [])))
             (upd_rec (f_gen r) (committed (filter (okf s (f_ctx r)) (f_decl r)))
                      (s_funcs s)).
 Proof.
-  unfold commit. destruct (reg_loop_spec (f_ctx r) (f_gen r, f_sr r) (f_decl r) s []) as (A & B & C & _).
+  intros Eo. unfold commit. rewrite Eo. destruct (reg_loop_spec (f_ctx r) (f_gen r, f_sr r) (f_decl r) s []) as (A & B & C & _).
   destruct (reg_loop false (f_ctx r) (f_gen r, f_sr r) (f_decl r) s []) as [[s' held] ok]. cbn [fst snd] in *.
   subst ok held. rewrite C. reflexivity.
 Qed.
 
-Lemma core_commit s r : Core s -> In r (s_funcs s) -> f_held r = [] ->
+Lemma core_commit s r : Core s -> In r (s_funcs s) -> f_held r = [] -> f_own r = f_ctx r ->
   (forall r', In r' (s_funcs s) -> f_ctx r' = f_ctx r -> f_held r' <> [] -> f_gen r' < f_gen r) ->
   Core (commit false s r) /\
   s_funcs (commit false s r) = upd_rec (f_gen r) (committed (filter (okf s (f_ctx r)) (f_decl r))) (s_funcs s) /\
   s_files (commit false s r) = s_files s /\ s_next (commit false s r) = s_next s.
 Proof.
-  intros HC Hr Hh Hord. rewrite commit_false_eq.
+  intros HC Hr Hh Eown Hord. rewrite (commit_false_eq s r Eown).
   set (c := f_ctx r) in *. set (g := f_gen r) in *. set (held := filter (okf s c) (f_decl r)).
   set (F := s_funcs s) in *. set (F2 := upd_rec g (committed held) F).
   destruct (reg_loop_spec c (g, f_sr r) (f_decl r) s []) as (_ & _ & Lf & Lfi & Ln & Lc & Lo & Lr).
@@ -660,12 +660,13 @@ Definition flags_ok (r : frec) : Prop :=
   (f_pending r = true -> f_held r = [] /\ f_bound r = true) /\     (* waiting for start: holds nothing, still bound *)
   (f_bound r = false -> f_held r = []) /\                          (* unbound (deleted/rebound): holds nothing *)
   (f_held r <> [] -> f_tracked r = true) /\                        (* whatever holds a name is released by ctx.stop() *)
-  f_tracked r = true.                                              (* conformant: every function object is recorded in its context *)
+  f_tracked r = true /\                                            (* conformant: every function object is recorded in its context *)
+  f_own r = f_ctx r.                                               (* ... and registers under its context's name *)
 Definition Flags (s : st) : Prop := forall r, In r (s_funcs s) -> flags_ok r.
 Definition WInv (s : st) : Prop := Core s /\ Flags s.
 
 Lemma flags_held_nil r : flags_ok r -> flags_ok (with_held [] r).
-Proof. intros (A & B & C & D). repeat split; cbn; auto; try tauto. Qed.
+Proof. intros (A & B & C & D & E). repeat split; cbn; auto; try tauto. Qed.
 
 (* F' is F where some objects lost holdings / flags; nothing was added *)
 Definition shrinks (F F' : list frec) : Prop :=
@@ -738,7 +739,7 @@ Proof.
     split; [split; [exact HC'|]|split; [|split; [rewrite Efi; reflexivity|rewrite En; reflexivity]]].
     - intros r' H. rewrite Ef in H. apply in_upd_rec in H. destruct H as (r0 & Hr0 & ->).
       destruct (N.eqb_spec (f_gen r0) (f_gen r)) as [E|Hne].
-      + rewrite (Hgen1 r0 Hr0 E). pose proof (proj2 (proj2 (proj2 (HF r Hr)))) as Htr. unfold flags_ok. cbn. repeat split; auto; congruence.
+      + rewrite (Hgen1 r0 Hr0 E). destruct (proj2 (proj2 (proj2 (HF r Hr)))) as (Htr & Hown). unfold flags_ok. cbn. repeat split; auto; congruence.
       + apply Hfl1; assumption.
     - rewrite Ef. eapply shrinks_trans; [exact Hsh1|]. apply shrinks_upd. intros; cbn; auto 6. }
   assert (Hrelease : forall lg, f_pending r = false -> WInv (release all_off lg s1 r) /\ shrinks F (s_funcs (release all_off lg s1 r)) /\
@@ -753,7 +754,7 @@ Proof.
   split; [split; [exact HC2|]|split; [|split; reflexivity]].
   - intros r' H. cbn in H. apply in_upd_rec in H. destruct H as (r0 & Hr0 & ->).
     destruct (N.eqb_spec (f_gen r0) (f_gen r)) as [E|Hne].
-    + rewrite (Hgen1 r0 Hr0 E). pose proof (proj2 (proj2 (proj2 (HF r Hr)))) as Htr. destruct (HF r Hr) as (A & _). destruct (A Ep) as (Hh & _).
+    + rewrite (Hgen1 r0 Hr0 E). destruct (proj2 (proj2 (proj2 (HF r Hr)))) as (Htr & Hown). destruct (HF r Hr) as (A & _). destruct (A Ep) as (Hh & _).
       unfold flags_ok. cbn. rewrite Hh. repeat split; auto; congruence.
     + apply Hfl1; assumption.
   - cbn. eapply shrinks_trans; [exact Hsh1|]. apply shrinks_upd. intros; cbn. repeat split; auto; discriminate.
@@ -768,15 +769,15 @@ Proof. intros Hs HA r Hr. destruct (Hs r Hr) as (r1 & H1 & _ & Ec & _). rewrite 
 Lemma PendIn_shrinks L F F' : shrinks F F' -> PendIn L F -> PendIn L F'.
 Proof. intros Hs HA r Hr Hp. destruct (Hs r Hr) as (r1 & H1 & _ & Ec & _ & Y). rewrite Ec. auto. Qed.
 
-Lemma do_def_off legacy started c f decl d s :
-  do_def all_off legacy started c f decl d s =
+Lemma do_def_off legacy started rt c f decl d s :
+  do_def all_off legacy started rt c f decl d s =
   let g := s_next s in
   let pend := negb legacy && negb started in
-  let nr := mk_frec c f g (eff_sr legacy d) (nodupN decl) [] true true pend (s_inc s c) in
+  let nr := mk_frec c f g (eff_sr legacy d) (nodupN decl) [] true true pend (s_inc s c) c in
   let s1 := set_funcs (set_next s (g + 1)) (s_funcs s ++ [nr]) in
   let s2 := if pend then s1 else commit false s1 nr in
   match find_bound (set_next s (g + 1)) c f with Some r => unbind all_off legacy s2 r | None => s2 end.
-Proof. unfold do_def. cbn [all_off d_no_alias d_alias_abort d_dup_set]. destruct legacy, started; reflexivity. Qed.
+Proof. unfold do_def. cbn [all_off d_no_alias d_alias_abort d_dup_set d_rt_owner]. destruct legacy, started, rt; reflexivity. Qed.
 
 Lemma find_bound_in s c f r : find_bound s c f = Some r -> In r (s_funcs s) /\ f_ctx r = c.
 Proof.
@@ -785,17 +786,17 @@ Proof.
 Qed.
 
 (* immediate registration: legacy, or new subsystem in a started context *)
-Lemma winv_do_def_imm legacy started c f decl d s L :
+Lemma winv_do_def_imm legacy started rt c f decl d s L :
   negb legacy && negb started = false -> WInv s -> NoPend (s_funcs s) -> AllCtx L (s_funcs s) -> In c L ->
-  let s' := do_def all_off legacy started c f decl d s in
+  let s' := do_def all_off legacy started rt c f decl d s in
   WInv s' /\ NoPend (s_funcs s') /\ AllCtx L (s_funcs s') /\ s_files s' = s_files s /\ s_next s <= s_next s'.
 Proof.
   intros Hmode (HC & HF) HNP HA HcL. rewrite do_def_off. cbn zeta. rewrite Hmode.
-  set (g := s_next s). set (nr := mk_frec c f g (eff_sr legacy d) (nodupN decl) [] true true false (s_inc s c)).
+  set (g := s_next s). set (nr := mk_frec c f g (eff_sr legacy d) (nodupN decl) [] true true false (s_inc s c) c).
   set (F := s_funcs s). set (s1 := set_funcs (set_next s (g + 1)) (F ++ [nr])).
   assert (HC1 : Core s1) by (apply core_append; [assumption|reflexivity|reflexivity]).
   assert (Hnr1 : In nr (s_funcs s1)) by (cbn; apply in_or_app; right; left; reflexivity).
-  destruct (core_commit s1 nr HC1 Hnr1 eq_refl) as (HC2 & Ef2 & Efi2 & En2).
+  destruct (core_commit s1 nr HC1 Hnr1 eq_refl eq_refl) as (HC2 & Ef2 & Efi2 & En2).
   { intros r' H _ Hh. cbn in H. apply in_app_or in H. destruct H as [H|[<-|[]]]; [apply (w_next _ HC); assumption|contradiction]. }
   set (s2 := commit false s1 nr) in *.
   set (held := filter (okf s1 (f_ctx nr)) (f_decl nr)) in *.
@@ -826,13 +827,13 @@ Proof.
 Qed.
 
 (* new subsystem while the file is still loading: the manager waits for ctx.start() *)
-Lemma winv_do_def_pend c f decl d s L Lp :
+Lemma winv_do_def_pend rt c f decl d s L Lp :
   WInv s -> K (s_funcs s) -> AllCtx L (s_funcs s) -> PendIn Lp (s_funcs s) -> In c L -> In c Lp ->
-  let s' := do_def all_off false false c f decl d s in
+  let s' := do_def all_off false false rt c f decl d s in
   WInv s' /\ K (s_funcs s') /\ AllCtx L (s_funcs s') /\ PendIn Lp (s_funcs s') /\ s_files s' = s_files s /\ s_next s <= s_next s'.
 Proof.
   intros (HC & HF) HK HA HP HcL HcLp. rewrite do_def_off. cbn zeta. cbn [negb andb].
-  set (g := s_next s). set (nr := mk_frec c f g (eff_sr false d) (nodupN decl) [] true true true (s_inc s c)).
+  set (g := s_next s). set (nr := mk_frec c f g (eff_sr false d) (nodupN decl) [] true true true (s_inc s c) c).
   set (F := s_funcs s). set (s1 := set_funcs (set_next s (g + 1)) (F ++ [nr])).
   assert (HC1 : Core s1) by (apply core_append; [assumption|reflexivity|reflexivity]).
   assert (HF1 : Flags s1).
@@ -875,7 +876,8 @@ Proof.
   - split; [assumption|]. split; [assumption|]. split; [assumption|]. split; [reflexivity|lia].
   - assert (Hstep : let s1 := run_stmt all_off legacy started c s x in
               WInv s1 /\ NoPend (s_funcs s1) /\ AllCtx L (s_funcs s1) /\ s_files s1 = s_files s /\ s_next s <= s_next s1).
-    { destruct x as [f decl d|f]; cbn [run_stmt].
+    { destruct x as [f decl d|f decl d|f]; cbn [run_stmt].
+      - apply winv_do_def_imm; assumption.
       - apply winv_do_def_imm; assumption.
       - destruct (winv_do_del legacy c f s HW (fun _ => HNP)) as (A & B & C & D).
         split; [assumption|]. split; [eapply NoPend_shrinks; eassumption|]. split; [eapply AllCtx_shrinks; eassumption|].
@@ -895,7 +897,8 @@ Proof.
   - split; [assumption|]. split; [assumption|]. split; [assumption|]. split; [assumption|]. split; [reflexivity|lia].
   - assert (Hstep : let s1 := run_stmt all_off false false c s x in
               WInv s1 /\ K (s_funcs s1) /\ AllCtx L (s_funcs s1) /\ PendIn Lp (s_funcs s1) /\ s_files s1 = s_files s /\ s_next s <= s_next s1).
-    { destruct x as [f decl d|f]; cbn [run_stmt].
+    { destruct x as [f decl d|f decl d|f]; cbn [run_stmt].
+      - apply winv_do_def_pend; assumption.
       - apply winv_do_def_pend; assumption.
       - destruct (winv_do_del false c f s HW) as (A & B & C & D); [discriminate|].
         split; [assumption|]. split; [eapply K_shrinks; eassumption|]. split; [eapply AllCtx_shrinks; eassumption|].
@@ -938,7 +941,7 @@ Proof.
           exfalso. apply Hnot. rewrite <- E. apply in_map. assumption.
         + intros _ r' H' E. apply in_upd_rec in H'. destruct H' as (r0 & Hr0 & ->).
           destruct (N.eqb_spec (f_gen r0) (f_gen r)) as [_|Hne]; [reflexivity|congruence].
-      - exfalso. pose proof (proj2 (proj2 (proj2 (proj2 HW r Hr)))) as Htr. congruence. }
+      - exfalso. destruct (proj2 (proj2 (proj2 (proj2 HW r Hr)))) as (Htr & _). congruence. }
     destruct H1 as (A & B & C & D & E & G).
     destruct (IH s1 A Hnd' E) as (A' & B' & C' & D' & E').
     split; [assumption|]. split; [eapply shrinks_trans; eassumption|]. split; [congruence|]. split; [congruence|].
@@ -1057,7 +1060,8 @@ Proof.
     assert (Hb : f_bound r = true) by (destruct (HF r Hr) as (A & _); apply A; assumption).
     assert (Hso : start_one s g = commit false s r) by (unfold start_one; rewrite (find_gen _ g r Hnd Hr Eg), Ep; reflexivity).
     rewrite Hso.
-    destruct (core_commit s r HC Hr Hh) as (HC1 & Ef1 & Efi1 & En1).
+    assert (Eown : f_own r = f_ctx r) by (apply (HF r Hr)).
+    destruct (core_commit s r HC Hr Hh Eown) as (HC1 & Ef1 & Efi1 & En1).
     { intros r' H' Ec' Hh'. rewrite Eg. apply Hord; auto. congruence. left; reflexivity. }
     set (s1 := commit false s r) in *. set (held := filter (okf s (f_ctx r)) (f_decl r)) in *.
     assert (Hin1 : forall r', In r' (s_funcs s1) -> (In r' (s_funcs s) /\ f_gen r' <> g) \/ r' = committed held r).
@@ -1443,12 +1447,12 @@ Proof.
   destruct (f_pending r); [cbn [set_funcs s_funcs]; auto|rewrite release_funcs; cbn [set_funcs s_funcs]; auto].
 Qed.
 
-Lemma commit_at s r k :
+Lemma commit_at s r k : f_own r = f_ctx r ->
   s_cnt (commit false s r) k = s_cnt s k + countN k (filter (okf s (f_ctx r)) (f_decl r)) /\
   s_owner (commit false s r) k = (if memN k (filter (okf s (f_ctx r)) (f_decl r)) then Some (f_ctx r) else s_owner s k) /\
   s_reg (commit false s r) k = (if memN k (filter (okf s (f_ctx r)) (f_decl r)) then Some (f_gen r, f_sr r) else s_reg s k).
 Proof.
-  rewrite commit_false_eq. cbn [set_funcs s_cnt s_owner s_reg].
+  intros Eo. rewrite (commit_false_eq s r Eo). cbn [set_funcs s_cnt s_owner s_reg].
   destruct (reg_loop_spec (f_ctx r) (f_gen r, f_sr r) (f_decl r) s []) as (_ & _ & _ & _ & _ & A & B & C). auto.
 Qed.
 
@@ -1463,21 +1467,21 @@ Proof.
   cbn zeta. set (s := run_ops all_off legacy ops init_st). intros Hl.
   destruct (sinv_run_ops legacy ops init_st sinv_init) as ((HC & HF) & HNP & HB & HA). fold s in HC, HF, HNP, HB, HA.
   unfold run_op. rewrite Hl. unfold run_body. cbn [fold_left run_stmt].
-  assert (HWd : WInv (do_def all_off legacy true c f decl d s)).
-  { apply (winv_do_def_imm legacy true c f decl d s (map fst (s_files s))); auto.
+  assert (HWd : WInv (do_def all_off legacy true false c f decl d s)).
+  { apply (winv_do_def_imm legacy true false c f decl d s (map fst (s_files s))); auto.
     - destruct legacy; reflexivity.
     - split; assumption.
     - apply loaded_In; assumption. }
   rewrite (gc_off legacy _ (proj2 HWd)). clear HWd.
   rewrite do_def_off. cbn zeta.
   replace (negb legacy && negb true) with false by (destruct legacy; reflexivity).
-  set (g := s_next s). set (nr := mk_frec c f g (eff_sr legacy d) (nodupN decl) [] true true false (s_inc s c)).
+  set (g := s_next s). set (nr := mk_frec c f g (eff_sr legacy d) (nodupN decl) [] true true false (s_inc s c) c).
   set (s1 := set_funcs (set_next s (g + 1)) (s_funcs s ++ [nr])).
   set (held := filter (okf s c) (nodupN decl)).
   assert (Hokf : forall k, okf s1 c k = okf s c k) by reflexivity.
   assert (Hheld : filter (okf s1 (f_ctx nr)) (f_decl nr) = held) by reflexivity.
   assert (Hf2 : s_funcs (commit false s1 nr) = upd_rec g (committed held) (s_funcs s ++ [nr])).
-  { rewrite commit_false_eq. cbn [set_funcs s_funcs]. rewrite Hheld. reflexivity. }
+  { rewrite (commit_false_eq s1 nr eq_refl). cbn [set_funcs s_funcs]. rewrite Hheld. reflexivity. }
   assert (Hnr2 : In (committed held nr) (s_funcs (commit false s1 nr))).
   { rewrite Hf2. apply in_upd_rec. exists nr. split; [apply in_or_app; right; left; reflexivity|]. cbn. rewrite N.eqb_refl. reflexivity. }
   assert (Hmem : forall k, memN k held = memN k decl && okf s c k).
@@ -1488,7 +1492,7 @@ Proof.
       apply memN_In in H. congruence. }
   assert (Hmaps2 : forall k, okf s c k = false ->
             s_reg (commit false s1 nr) k = s_reg s k /\ s_owner (commit false s1 nr) k = s_owner s k /\ s_cnt (commit false s1 nr) k = s_cnt s k).
-  { intros k Ek. destruct (commit_at s1 nr k) as (A & B & C). rewrite Hheld in A, B, C.
+  { intros k Ek. destruct (commit_at s1 nr k eq_refl) as (A & B & C). rewrite Hheld in A, B, C.
     assert (Em : memN k held = false) by (rewrite Hmem, Ek; apply andb_false_r).
     rewrite A, B, C, Em, (memN_false_count _ _ Em). cbn. rewrite N.add_0_r. auto. }
   assert (Hkeep_prune : forall s2, In (committed held nr) (s_funcs s2) -> In (committed held nr) (s_funcs (prune s2))).
